@@ -203,9 +203,14 @@ fn exec_resp(op: &[&str]) -> String {
     let n: usize = op[1].parse().expect("nframes");
     let haserr = op[2] == "1";
     let pat = if op[3] == "_" { "" } else { op[3] };
+    // 5th argument `p`: the failing command printed a field before its ACK (partial output)
+    let partial = op.len() == 5 && op[4] == "p";
     let mut w = Vec::new();
     for i in 0..n {
         w.extend_from_slice(format!("i: {i}\nlist_OK\n").as_bytes());
+    }
+    if partial && haserr {
+        w.extend_from_slice(b"p: x\n");
     }
     if haserr {
         w.extend_from_slice(format!("ACK [5@{n}] {{}} boom\n").as_bytes());
@@ -239,7 +244,7 @@ fn exec_resp(op: &[&str]) -> String {
 pub fn exec(op: &[&str]) -> String {
     match op[0] {
         "frame.ops" if op.len() == 4 => exec_frame(op),
-        "resp.ops" if op.len() == 4 => exec_resp(op),
+        "resp.ops" if op.len() == 4 || op.len() == 5 => exec_resp(op),
         _ => "badop".into(),
     }
 }
@@ -452,6 +457,12 @@ pub fn gen(cfg: &Cfg) -> Vec<String> {
         let e = r.below(2);
         let p = gen_pattern(&mut r, 16, false);
         ops.push(format!("resp.ops {n} {e} {}", if p.is_empty() { "_".to_string() } else { p }));
+    }
+    // an error after partial output of the failing command (single command: n = 0, or inside a list)
+    for n in 0..=nmax {
+        for p in pats.iter().filter(|p| p.len() <= 4) {
+            ops.push(format!("resp.ops {n} 1 {} p", if p.is_empty() { "_" } else { p }));
+        }
     }
     ops
 }
